@@ -1,10 +1,10 @@
 # unit `excerpt` -- PrettyPrint::format_region renders the referred line with the marker under the reported columns
 # (C18, source-excerpt clause) and does not panic (C06).  Kani, bounded: concrete instances only.
 #
-# Contract (from the property), for one-line `text`, first_non_ws <= start <= end < chars(text):
+# Contract (from the property), for one-line `text`, first_non_ws <= start <= end <= chars(text):
 #   three '\n'-terminated lines "{spc} |", " {line+1} | {text.trim()}", "{spc} | {blanks}{carets}" with exactly
-#   end-start+1 carets and nothing after them, preceded by exactly start-first_non_ws blanks (the line's own blanks, so
-#   tabs keep their width) -- i.e. the marker starts under character `start` of the shown line.
+#   end-start+1 carets and nothing after them, preceded by exactly start-first_non_ws blanks (the line's own tabs and printing blanks, so
+#   tabs keep their width; a carriage return is not copied) -- i.e. the marker starts under character `start` of the shown line.
 # Tool limit (measured, CBMC 6.11, 300 s each): symbolic text of 2-3 characters: no verdict; symbolic columns or line
 # number: CBMC crashes (SIGSEGV) in `<[u8]>::repeat` with a symbolic count, and gives no verdict with `str::repeat`
 # modelled.  One concrete instance takes 40-90 s.
@@ -20,6 +20,7 @@ INSTANCES = [
     ('c_nbsp_between', r'text "a\u{a0}b", line 0, columns 2..=2'),
     ('c_ideographic_indent', r'text "\u{3000}ab", line 0, columns 2..=2'),
     ('c_ideographic_shift', r'text "a\u{3000}  b", line 0, columns 4..=4'),
+    ('c_crlf_newline_token', r'text "\tadd\r" (a line of a CR/LF file), line 3, columns 5..=5 (the line terminator)'),
 ]
 
 UNIT = {
